@@ -135,6 +135,7 @@ type Batch struct {
 	Txn     bool   `json:"txn,omitempty"`
 	Control string `json:"control,omitempty"` // "" | commit | abort
 	AtUs    int64  `json:"atUs,omitempty"`    // appended during the run at this time (0 = preloaded)
+	AppendTsMs int64 `json:"appendTsMs,omitempty"` // > 0: the topic uses LogAppendTime; the broker stamped the batch with this time
 }
 
 type Log struct {
